@@ -215,6 +215,13 @@ func C11(p *load.Prog, r *oblig.Run) {
 	raceObligations(p, r, "R11.a", a, loadRaceTable(), "IndividualNodes.Compare")
 	r.Rule("R11.b", "a field written under a mutex by the concurrent workers is only read under a mutex there", 3)
 	lockConsistency(p, r, "R11.b", a, g, root)
+	pipelineStructure(p, r, g, root)
+}
+
+// pipelineStructure: the structural rules of the matching pipeline (shared by C11 and, because a document merge runs
+// the same pipeline and hangs or mis-pairs with it, by C10).
+func pipelineStructure(p *load.Prog, r *oblig.Run, g *cg.Graph, root *ssa.Function) {
+	r.Rule("R11.c", "every pipeline channel is closed by its producer on every path", 4)
 	r.Rule("R11.d", "each already-sent map is keyed only by individuals of the side it stands for", 6)
 	r.Rule("R11.e", "a job producer that tests one already-sent map before sending tests every map it marks", 1)
 	sentSides(p, r, "R11.d", "R11.e", concurrentRegion(g, root))
@@ -229,6 +236,8 @@ func C11(p *load.Prog, r *oblig.Run) {
 	producerOrder(p, r, "R11.k")
 	r.Rule("R11.h", "the Left (Right) of every comparison the pipeline builds is an individual of the left (right) list", 4)
 	listSides(p, r, "R11.h", root, concurrentRegion(g, root))
+	r.Rule("R11.l", "a lookup on a list of individuals that the pipeline uses answers only with individuals of that list", 2)
+	listLookups(p, r, "R11.l", root, concurrentRegion(g, root))
 	stages := []*ssa.Function{p.Func(load.PkgRoot, "createJobs"), p.Method(load.PkgRoot, "IndividualNodesCompareOptions", "processJobs"),
 		p.Method(load.PkgRoot, "IndividualNodesCompareOptions", "collectResults"), p.Method(load.PkgRoot, "IndividualNodesCompareOptions", "calculateWinners")}
 	nothingAfterClose(p, r, "R11.g", stages)
